@@ -124,6 +124,12 @@ def check(ctx: Ctx) -> None:
             for n, k in w_rst[g]:
                 if k in ("del", "pop"):
                     conds = [norm(c) if pol else f"not ({norm(c)})" for c, pol in flatten_conditions(dominating_conditions(n))]
+                    # the selection may be made by the loop's iterable: for key in [k for k in G if k not in _DEFAULT_ELEMENTS]
+                    lp_ = enclosing(n, (ast.For,))
+                    if lp_ is not None and isinstance(lp_.iter, (ast.ListComp, ast.GeneratorExp, ast.SetComp)):
+                        conds += [norm(c) for g_ in lp_.iter.generators for c in g_.ifs]
+                    elif lp_ is not None and isinstance(lp_.iter, ast.Call) and lp_.iter.args and isinstance(lp_.iter.args[0], (ast.ListComp, ast.GeneratorExp)):
+                        conds += [norm(c) for g_ in lp_.iter.args[0].generators for c in g_.ifs]
                     if any("_DEFAULT_ELEMENTS" in c for c in conds):
                         good = True
                 if k == "rebind" and "_DEFAULT_ELEMENTS" in norm(n.value):
@@ -363,13 +369,19 @@ def check(ctx: Ctx) -> None:
             reg_cont = fold_const(n.value, {**module_consts(ctx.repo, REG), **STRING_NAMES})
     il = model.fi(TOK, "Tokenizer.identifier_or_label")
     tok_cont = None
+    tnames = {**module_consts(ctx.repo, TOK), **STRING_NAMES}
     for n in walk_ordered(il.node):
+        # the element-identifier alphabet is the one chosen when the previous token is NOT `{` or `,`
         if isinstance(n, ast.If) and "LCurly" in norm(n.test):
             for blk in (n.orelse,):
                 for m in blk:
                     for x in walk_ordered(m):
-                        if isinstance(x, ast.Assign) and norm(x.targets[0]) == "valid_chars":
-                            tok_cont = fold_const(x.value, {**module_consts(ctx.repo, TOK), **STRING_NAMES})
+                        if isinstance(x, (ast.Assign, ast.AnnAssign)) and x.value is not None and norm(x.targets[0] if isinstance(x, ast.Assign) else x.target) == "valid_chars":
+                            tok_cont = fold_const(x.value, tnames)
+        if isinstance(n, (ast.Assign, ast.AnnAssign)) and n.value is not None and norm(n.targets[0] if isinstance(n, ast.Assign) else n.target) == "valid_chars" \
+                and isinstance(n.value, ast.IfExp) and "LCurly" in norm(n.value.test):
+            neg = isinstance(n.value.test, ast.UnaryOp) and isinstance(n.value.test.op, ast.Not)
+            tok_cont = fold_const(n.value.body if neg else n.value.orelse, tnames)
     tm = model.fi(TOK, "Tokenizer.main_loop")
     tok_first = None
     for n in walk_ordered(tm.node):
